@@ -143,6 +143,26 @@ Theorem C07_equal_decompositions_same_point :
     forall t, In t (f_pts (getf s f)) -> NoDup (keys (xof t)) /\ prune (xof t) = xof t.
 Proof. exact (fun ops H => read_I5 (run ops) (inv_partial ops H)). Qed.
 
+(** The lemma that makes the bookkeeping theorems apply to POINTS (vectors) and not only to dictionaries:
+    for decompositions in pruned normal form (unique keys, no explicit zero) the comparison of raw
+    dictionaries used by the lookup is equality of the two points as vectors, under every valuation of the
+    leaf points in every inner-product space.  The normal form of recorded points is part of the invariant
+    ([C07_equal_decompositions_same_point]); that of query points is [op_guard] in the model, and on the
+    implementation it is CHECKED by the correspondence stream: every Point handed to oracle / gradient /
+    value / add_point must have exactly the decomposition [pt t] of the term [t] the user wrote.  [+] and
+    [-] always return normal forms ([C07_point_algebra_normal_form]); only a final scaling by 0 does not
+    (F-C07b). *)
+Theorem C07_lookup_is_vector_equality :
+  forall a b : pdict, NoDupKeys nat a -> NoDupKeys nat b -> allnz nat a = true -> allnz nat b = true ->
+    (dict_eqb Nat.eqb a b = true <-> forall (E : ips) (rho : nat -> E), veq (evalP rho a) (evalP rho b)).
+Proof. exact lookup_is_vector_equality. Qed.
+
+Theorem C07_point_algebra_normal_form :
+  forall a b : pterm,
+    allnz nat (pt (PAdd a b)) = true /\ allnz nat (pt (PSub a b)) = true /\
+    NoDupKeys nat (pt (PAdd a b)) /\ NoDupKeys nat (pt (PSub a b)).
+Proof. exact pt_normal_form. Qed.
+
 Theorem C07_dict_equality_is_equivalence :
   forall a b c : pdict, NoDupKeys nat a -> NoDupKeys nat b -> NoDupKeys nat c ->
     dict_eqb Nat.eqb a a = true /\
@@ -165,19 +185,29 @@ Proof. exact (fun ops H => read_I6 (run ops) (inv_partial ops H)). Qed.
 (** Non-vacuity: an accepted sequence with a differentiable and a non-differentiable leaf, the sum
     F = f0 + 2 f1 evaluated after one of its terms, re-evaluated (new subgradient, remainder rule on f1),
     a stationary point of F, a nested sum G = F/2 - f0 (weights {f0: -1/2, f1: 1}) evaluated where its terms
-    already are: the guard holds, F has 3 samples (one stationary), f1 has 6. *)
-Definition x0 : pdict := [(0%nat, 1%Q)].
+    already are: the guard holds, F has 4 samples (one stationary; the last query (x0 + P1) - P1 is recognised as x0), f1 has 7. *)
+Definition x0 : pterm := PVar 0.
 Definition ops_example : list op :=
   [NewPoint; NewLeaf true; NewLeaf false; Combine [(0%nat, 1%Q); (1%nat, 2%Q)];
    Oracle 1%nat x0; Oracle 2%nat x0; Gradient 2%nat x0; Stationary 2%nat;
-   Combine [(2%nat, (1 # 2)%Q); (0%nat, (-1)%Q)]; Value 3%nat x0; Oracle 3%nat [(0%nat, 2%Q); (1%nat, (-1)%Q)]].
+   Combine [(2%nat, (1 # 2)%Q); (0%nat, (-1)%Q)]; Value 3%nat x0; Oracle 3%nat (PSub (PScal (SNum 2) (PVar 0)) (PVar 1));
+   Oracle 2%nat (PSub (PAdd x0 (PVar 1)) (PVar 1)); Value 0%nat (PSub (PVar 2) (PSub (PVar 2) x0))].
 
 Example C07_example :
   ops_ok ops_example = true /\ inv_b (run ops_example) = true /\
   let s := run ops_example in
-  length (f_pts (getf s 2%nat)) = 3%nat /\ length (f_stat (getf s 2%nat)) = 1%nat /\
-  length (f_pts (getf s 1%nat)) = 6%nat /\
+  length (f_pts (getf s 2%nat)) = 4%nat /\ length (f_stat (getf s 2%nat)) = 1%nat /\
+  length (f_pts (getf s 1%nat)) = 7%nat /\
   dict_eqb Nat.eqb (f_w (getf s 3%nat)) [(0%nat, (-1 # 2)%Q); (1%nat, 1%Q)] = true /\ f_reuse (getf s 3%nat) = false.
+Proof. vm_compute. repeat split; reflexivity. Qed.
+
+(** points that return to an earlier point have the earlier point's decomposition; without the normal form
+    the raw comparison is NOT vector equality ({y: 0} vs {}) *)
+Example C07_cancellation_returns_to_the_point :
+  pt (PSub (PAdd (PVar 0) (PVar 1)) (PVar 1)) = pt (PVar 0) /\
+  dict_eqb Nat.eqb (pt (PSub (PVar 1) (PSub (PVar 1) (PVar 0)))) (pt (PVar 0)) = true /\
+  dict_eqb Nat.eqb (pt (PAdd (PAdd (PVar 0) (PScal (SNum 2) (PVar 1))) (PNeg (PScal (SNum 2) (PVar 1))))) (pt (PVar 0)) = true /\
+  dict_eqb Nat.eqb (pt (PScal (SNum 0) (PVar 1))) [] = false.
 Proof. vm_compute. repeat split; reflexivity. Qed.
 
 (** the refuting sequences are well scoped but rejected by the guard *)
@@ -226,4 +256,6 @@ Print Assumptions C07_stationary_zero_total_gradient.
 Print Assumptions C07_lookup_exact.
 Print Assumptions C07_equal_decompositions_same_point.
 Print Assumptions C07_dict_equality_is_equivalence.
+Print Assumptions C07_lookup_is_vector_equality.
+Print Assumptions C07_point_algebra_normal_form.
 Print Assumptions C07_differentiable_sum_has_differentiable_terms.
